@@ -62,6 +62,7 @@ func Round(x float64, prec jtypes.OptionalInt) float64 {
 	if prec.Int >= 0 && x == math.Trunc(x) {
 		return x
 	}
+	orig := x
 	intermed := multByPow10(x, prec.Int)
 	if math.IsInf(intermed, 0) {
 		return x
@@ -86,7 +87,14 @@ func Round(x float64, prec jtypes.OptionalInt) float64 {
 		return 0
 	}
 
-	return multByPow10(x, -prec.Int)
+	// Scaling back can overflow (e.g. 1.7e308 rounded to the
+	// nearest 1e308 is 2e308). As above, return the number
+	// unrounded rather than infinity.
+	if res := multByPow10(x, -prec.Int); !math.IsInf(res, 0) {
+		return res
+	}
+
+	return orig
 }
 
 // Power returns x to the power of y.
